@@ -137,3 +137,67 @@ Proof.
   - split; [lra|]. right. split; [left; reflexivity|lra].
   - split; [lra|]. right. split; [right; reflexivity|lra].
 Qed.
+
+(** TF — the level search in BINARY64, exactly.  Model/VerticalFloat.v models z2s_kernel over Coq's primitive floats
+    (numba's binary search, the weight (zr[k] + z) / (zr[k] - zr[k-1])), tied to the compiled kernel bit for bit by
+    Corr/VertF.v.  For N >= 2 finite non-decreasing levels of magnitude <= 2^1022 and any finite depth: 1 <= K <= N-1 and
+    0 <= A <= 1 hold EXACTLY in floats (monotone rounding; the difference of two distinct floats is never rounded to 0),
+    and the interpolated level depth is within 12 u64 M + 3 eta of the depth clamped to the column. *)
+From Coq Require Import ZArith Reals List.
+From Coq Require Floats.
+From Flocq Require Import Core BinarySingleNaN.
+From Flocq Require IEEE754.PrimFloat IEEE754.Binary IEEE754.Bits.
+From Ladim Require Import Model.TrilinearFloat Proofs.TrilinearFloatProofs Model.VerticalFloat Proofs.VerticalFloatProofs Proofs.VertFSound.
+Import Flocq.IEEE754.PrimFloat.
+Section TF.
+Local Open Scope R_scope.
+Theorem C12_searchsorted_left_spec :
+  forall (l : list pfloat) (v : pfloat),
+  finl l ->
+  incr l ->
+  fin v ->
+  let k := searchsorted_left l v in
+  (k <= length l)%nat /\
+  (forall i : nat, (i < k)%nat -> FR (nth i l PrimFloat.nan) < FR v) /\
+  ((k < length l)%nat -> FR v <= FR (nth k l PrimFloat.nan)).
+Proof. exact searchsorted_left_spec. Qed.
+Print Assumptions C12_searchsorted_left_spec.
+
+Theorem C12_z2s_f_bounds :
+  forall (zr : list pfloat) (z : pfloat),
+  (2 <= length zr)%nat ->
+  finl zr ->
+  levb zr ->
+  incr zr ->
+  fin z ->
+  let K := fst (z2s_f zr z) in
+  let A := snd (z2s_f zr z) in (1 <= K <= Z.of_nat (length zr) - 1)%Z /\ fin A /\ 0 <= FR A <= 1.
+Proof. exact z2s_f_bounds. Qed.
+Print Assumptions C12_z2s_f_bounds.
+
+Theorem C12_z2s_weight_error :
+  forall a b z A : R,
+  fmt a ->
+  fmt b ->
+  fmt z ->
+  a < - z <= b ->
+  A = rnd (rnd (b + z) / rnd (b - a)) -> Rabs (A * a + (1 - A) * b - - z) <= (4 * u64 + eta) * (b - a).
+Proof. exact z2s_weight_error. Qed.
+Print Assumptions C12_z2s_weight_error.
+
+Theorem C12_z2s_depth_error :
+  forall (zr : list pfloat) (z : pfloat) (M : R),
+  (2 <= length zr)%nat ->
+  finl zr ->
+  incr zr ->
+  fin z ->
+  (forall i : nat, (i < length zr)%nat -> Rabs (FR (nth i zr PrimFloat.nan)) <= M) ->
+  M <= bpow radix2 1000 ->
+  let r := z2s_depth_f zr (z2s_f zr z) in
+  fin r /\
+  Rabs (FR r - clampR (FR (nth 0 zr PrimFloat.nan)) (FR (nth (length zr - 1) zr PrimFloat.nan)) (- FR z)) <=
+  12 * u64 * M + 3 * eta.
+Proof. exact z2s_depth_error. Qed.
+Print Assumptions C12_z2s_depth_error.
+
+End TF.
